@@ -978,7 +978,7 @@ def check_powers(ctx, res):
 
 
 def check_modular(ctx, res):
-    run_targets(ctx, res, modular_targets, "R5-modular-sign", 3, "R5: BigInt::modpow / modinv place the unsigned residue as the floor-mod representative in all sign cases, including residue 0; guards panic")
+    run_targets(ctx, res, modular_targets, "R5-modular-sign", 2, "R5: BigInt::modpow / modinv place the unsigned residue as the floor-mod representative in all sign cases, including residue 0; guards panic")
 
 
 def check_roots(ctx, res):
